@@ -57,6 +57,7 @@ type blockParam struct {
 	appHash  []byte // result of block height-1 (as every honest proposer would put it)
 	rcptHash []byte
 	lastID   gtypes.BlockID
+	timeOff  int64 // seconds added to the regular header time
 }
 
 func mkBlock(p blockParam) *gtypes.Block {
@@ -68,7 +69,7 @@ func mkBlock(p blockParam) *gtypes.Block {
 		Header: &gtypes.Header{
 			ChainID:         "c05",
 			Height:          p.height,
-			Time:            time.Unix(1600000000+3*p.height, 0).UTC(),
+			Time:            time.Unix(1600000000+3*p.height+p.timeOff, 0).UTC(),
 			NumTxs:          int64(len(txs)),
 			LastBlockID:     p.lastID,
 			ValidatorsHash:  []byte("c05-validators-hash-"),
@@ -484,6 +485,12 @@ func runCase(c Case, x reporter) {
 		var lastID gtypes.BlockID
 		for i := 0; i < n; i++ {
 			p := blockParam{height: int64(i + 1), appHash: prevApp, rcptHash: prevRcpt, lastID: lastID}
+			if len(c.TimeOff) > 0 {
+				p.timeOff = int64(c.TimeOff[i%len(c.TimeOff)])
+				if i > 0 && 3*p.height+p.timeOff <= 3*params[i-1].height+params[i-1].timeOff {
+					x.Label("block-time-not-after-previous-block")
+				}
+			}
 			for _, bt := range txs[i] {
 				p.txs = append(p.txs, bt.raw)
 			}
